@@ -1,7 +1,7 @@
 SPECIFICATION Spec
 CONSTANTS
   Keys = {1, 2}
-  Writers = {1, 2}
+  Writers = {1}
   Depth0 = 0
   MaxArr = 4
   MaxSteps = 6
